@@ -92,11 +92,6 @@ theorem rowV_getD (cs : List (Coef K)) (n k : Nat) : (rowV cs n).getD k 0 = (cs.
 
 /-! ### ends with the shortest -/
 
-/-- a coefficient seen from output `n` on -/
-def Coef.dropC (n : Nat) : Coef K → Coef K
-  | .const c => .const c
-  | .strm s => .strm (s.drop n)
-
 theorem endLen_zero (cs : List (Coef K)) : endLen 0 cs = 0 := by
   induction cs with
   | nil => rfl
